@@ -8,7 +8,7 @@
    time steps (a negative time step is rejected by the machine, so histories are
    time-monotone) -- unbounded.  A reachable state is [c_run cfg c_init evs].
    "Displaced" = a loading future that a Set replaced in the map (ghost list c_displaced). *)
-From Got Require Import Base Cache CacheProofs.
+From Got Require Import Base Cache CacheProofs CacheSteps CacheStepsProofs.
 Local Open Scope Z_scope.
 
 (* single flight:
@@ -103,4 +103,73 @@ Example c04_nonvacuous :
   c_displaced (c_run cfg c_init evs) = [0%nat] /\
   option_map c_fdone (c_get (c_futs (c_run cfg c_init evs)) 0) = Some (Some (91, 0, 1015)) /\
   c_shard_index KInt8 (-5) [] 16 = 11 /\ c_shard_index KString 0 [97; 98; 99] 16 = 11.
+Proof. vm_compute. repeat split. Qed.
+
+(* ================================================================== atomicity of the calls
+   models/CacheSteps.v executes Load / Get2 / Set / worker setValue / removeRotted one shared
+   access at a time (one step per yield site of the hooked code, mutex acquisition disabled
+   while the mutex is held, explicit clock ticks between any two steps) and carries, as ghost
+   state, a run of the ATOMIC machine Cache.v: cs_g is advanced at the linearization points of
+   the state-changing calls, every Get2 / job-less Load collects the atomic output at every
+   instant of its call interval (ct_cands), and cs_mis is raised as soon as a real result is
+   not the atomic output at the call's linearization point / at some instant of its interval.
+
+   INTENDED THEOREM (not proved in full; the name is reserved):
+     cache_calls_linearize :
+       forall cfg progs sched, c_cfg_ok cfg -> cs_progs_covered progs = true ->
+       let s := cs_run cfg (cs_init progs) sched in cs_bad s = false -> cs_mis s = false.
+   i.e. for programs of Load / Get2 / worker calls and every schedule whose clock ticks stay
+   outside the windows cs_in_window, the small-step machine refines Cache.v.  It is FALSE
+   without the window hypothesis and FALSE for programs with Set (concrete schedules below and
+   in corpus/C04/call-steps.txt, reproduced on the real code).
+
+   PROVED (this file): (1) the ghost run is an atomic history of Cache.v for ALL programs and
+   schedules, so "cs_mis = false" on a run means exactly: the run linearizes with the events
+   cs_evs; (2) the simulation invariant cs_inv (proofs/CacheStepsProofs.v) holds initially,
+   implies cs_mis = false, and is preserved by every step of a thread that is at one of the
+   lock-free read sites of Get2 / Load (status of the entry, predecessor, status of the
+   predecessor): whatever the other threads and the clock did between its reads, its result is
+   the atomic output at some instant of its call.  The interference part of the argument is
+   proved once and for all (cs_tinv_ext: every thread's invariant is stable under any
+   environment step satisfying cs_ext, including a concurrent setValue finishing the very
+   future being read).  NOT proved: that the steps under the mutex, sendJob, the worker's three
+   stores and the clock tick preserve cs_inv (each needs its cs_ext instance); this part is
+   checked by computation only (cs_mis = false on every explored schedule, stream call-steps). *)
+Theorem cache_steps_ghost_is_atomic_history :
+  forall cfg progs sched,
+  let s := cs_run cfg (cs_init progs) sched in
+  cs_g s = c_run cfg c_init (rev (cs_evs s)).
+Proof. exact cs_ghost_is_history. Qed.
+Print Assumptions cache_steps_ghost_is_atomic_history.
+
+Theorem cache_calls_linearize_partial :
+  forall cfg,
+  c_cfg_ok cfg ->
+  (forall progs, cs_progs_covered progs = true -> cs_inv cfg (cs_init progs)) /\
+  (forall s, cs_inv cfg s -> cs_mis s = false) /\
+  (forall s tid t, cs_inv cfg s -> nth_error (cs_thr s) tid = Some t -> cs_reader_pc (ct_pc t) = true ->
+     cs_inv cfg (fst (cs_step cfg s (CsRun tid)))).
+Proof.
+  intros cfg Hcfg. split; [intros progs H; apply cs_inv_init; exact H|].
+  split; [intros s I; apply (si_mis _ _ I)|].
+  intros s tid t I Ht Hr. eapply cs_reader_step_inv; eauto.
+Qed.
+Print Assumptions cache_calls_linearize_partial.
+
+(* genuine non-atomicity, Set involved (E = 3600, future 0 = 5400 old = stale, future 1 = its
+   refresh, loading, predecessor 0): Get2 reads the map (entry 1) and unlocks; Set replaces the
+   entry by future 2; the worker's setValue of future 1 starts afterwards; Get2 loads
+   updateTime(1) = zero (Good), the worker stores updateTime and clears the predecessor, Get2
+   loads predecessor(1) = nil and returns future 1.  At every instant of the call the atomic
+   Get2 answers future 0 (before the Set) or future 2 (after it): the candidate set of the
+   call does not contain OAwait 1.  No clock tick is involved. *)
+Example cache_get2_set_finish_not_atomic :
+  let cfg := {| c_normE := 3600; c_errE := 1200 |} in
+  let m0 := c_run cfg (cs_backdate (c_run cfg c_init [CLoad 0; CStart 0; CFinish 0 0 5 0]) 0 5400) [CLoad 0] in
+  let s := cs_run cfg (cs_init_on m0 [[CsGet2 0]; [CsSet 0 3 0]; [CsFinish 9 0]])
+             (map CsRun [0;0;0;0; 1;1;1;1;1;1; 2;2; 0; 2;2; 0])%nat in
+  cs_bad s = false /\ cs_mis s = true /\
+  cs_log s = [(0%nat, CsGet2 0, CsRVal 0 0, OAwait 1%nat); (2%nat, CsFinish 9 0, CsRFin 1%nat, OFinish 1%nat);
+              (1%nat, CsSet 0 3 0, CsRNone, ONone)] /\
+  option_map (fun t => nodup cs_out_eq_dec (ct_cands t)) (nth_error (cs_thr s) 0) = Some [OAwait 2%nat; OAwait 0%nat].
 Proof. vm_compute. repeat split. Qed.
